@@ -406,7 +406,7 @@ fn check_expr_tree(e: &Expression, w: u32, rep: &mut Report) {
 }
 
 fn run_task(task: &Task, cfg: &Cfg, rng: &mut Rng, rep: &mut Report) {
-    let samples = cfg.tier.pick(20_000u64, 600_000u64);
+    let samples = cfg.tier.pick(200_000u64, 600_000u64);
     match task {
         Task::ExhBin(op, lo, hi) => {
             let op = *op;
@@ -557,7 +557,7 @@ fn run(cfg: &Cfg) -> Report {
     for hi in 0..256 {
         tasks.push(Task::ExhSubpiece(hi));
     }
-    let n = cfg.tier.pick(20_000u64, 400_000u64);
+    let n = cfg.tier.pick(100_000u64, 400_000u64);
     let reps = cfg.tier.pick(1, 4);
     for _ in 0..reps {
         for op in pref::INT_BIN_OPS.iter().chain(pref::FLOAT_BIN_OPS.iter()) {
